@@ -52,3 +52,19 @@ package messages
 //@ func (*RedundantMessenger).SendMessage$1
 //@ property C22
 //@ loop 0 sets ghost.sentThisRound = 0
+
+// C22: never more than one retransmitter per swap: the manager refuses a second
+// registration under an id it still holds and leaves the registered one in place;
+// removing forgets the id (and only that id).
+//@ func (*Manager).AddSender
+//@ property C22
+//@ requires m != nil && m.messengers != nil
+//@ ensures @C22 second-registration-refused: old(has(m.messengers, id)) ==> (result != nil && m.messengers[id] == old(m.messengers[id]))
+//@ ensures @C22 registered: !old(has(m.messengers, id)) ==> (result == nil && has(m.messengers, id) && m.messengers[id] == messenger)
+//@ assigns m.messengers[id]
+
+//@ func (*Manager).RemoveSender
+//@ property C22
+//@ requires m != nil && m.messengers != nil
+//@ ensures @C22 forgotten: !has(m.messengers, id)
+//@ assigns m.messengers[id]
